@@ -82,6 +82,25 @@ func ruleCodecSymmetry(c *Ctx) {
 			}
 			e := codingAt(facts[a.Instr.Block()])
 			if e == "" {
+				// one store after the branches: the value is a phi with one compressor per incoming edge, each
+				// chosen under its own test of the coding
+				if ph, isPhi := strip(a.Instr.(*ssa.Store).Val).(*ssa.Phi); isPhi && len(ph.Edges) == len(ph.Block().Preds) {
+					for k, ev := range ph.Edges {
+						pr := ph.Block().Preds[k]
+						fs := map[condFact]bool{}
+						for g := range facts[pr] {
+							fs[g] = true
+						}
+						if iff, ok := pr.Instrs[len(pr.Instrs)-1].(*ssa.If); ok && pr.Succs[0] != pr.Succs[1] {
+							addCondFacts(fs, iff.Cond, pr.Succs[0] == ph.Block())
+						}
+						if ek := codingAt(fs); ek != "" {
+							for f := range p.familiesOf(ev) {
+								writer[ek] = f
+							}
+						}
+					}
+				}
 				continue
 			}
 			for f := range p.familiesOf(a.Instr.(*ssa.Store).Val) {
